@@ -363,6 +363,7 @@ CHECKS = {
         stages=[
             mc("histories", "MC_C08.tla", dict(quick="MC_C08_quick.cfg", thorough="MC_C08_thorough.cfg"), replay_cmd="replay-hist"),
             mc("construction", "MC_C08v.tla", "MC_C08v.cfg", replay_cmd="replay-hist", workers=4),
+            mc("histories-with-borrows-and-round-trips", "MC_C17r.tla", "MC_C17r.cfg", replay_cmd="replay-hist"),
             trace("random-histories", "Trace_Ctx", ["gen-hist", "--len", "50"], 40, 1600, shards=SH),
         ],
     ),
@@ -458,6 +459,7 @@ CHECKS = {
             mc("values-depth2", "MC_C14.tla", "MC_C14_val2.cfg", replay_cmd="replay-serde", workers=4),
             mc("map-pairs", "MC_C14.tla", "MC_C14_pairs.cfg", replay_cmd="replay-serde", workers=4),
             mc("documents", "MC_C14.tla", "MC_C14_docs.cfg", replay_cmd="replay-serde", workers=6),
+            mc("context-histories-with-round-trips", "MC_C17r.tla", "MC_C17r.cfg", replay_cmd="replay-hist"),
             trace("serde", "Trace_Serde", ["gen-serde"], 2400, 120000, shards=SH),
         ],
     ),
